@@ -29,8 +29,10 @@ Attrs(t) == CASE t = "ack" -> {"succeed", "fail", "negotiate"}
               [] t = "eed" -> {"info", "err"}
               [] t = "env" -> {"packsize", "db"}
               [] OTHER -> {"x"}
+\* (also packages of the other flow / the other phase where they do not belong)
 Insertable == {P("eed", "info"), P("eed", "err"), P("env", "packsize"), P("env", "db"), P("other", "x"),
-               P("done", "more"), P("ack", "fail"), P("eom", "x")}
+               P("done", "more"), P("ack", "fail"), P("eom", "x"),
+               P("caps", "normal"), P("msg", "enc4"), P("ack", "succeed"), P("ack", "negotiate"), P("done", "final")}
 
 \* ---- single edits
 Delete(s, i) == SubSeq(s, 1, i - 1) \o SubSeq(s, i + 1, Len(s))
